@@ -125,7 +125,7 @@ def find_cmp(b):
     return cs
 
 
-def table_update(R, cfg, b, old_tok, new_tok):
+def table_update(R, cfg, b, old_tok, new_tok, atomic=False):
     """ReloadId::update(&mut self, new) decided by abstract execution over the three orderings of (new, old): the ids are
     the symbols `old` / `new`, comparisons and Ord::max / Ord::min on them are evaluated from the ordering, every
     branch must then be decided, and the function must end with  *self = max(old, new)  and  return new > old.
@@ -154,6 +154,7 @@ def table_update(R, cfg, b, old_tok, new_tok):
         env = {}        # local -> 'old' | 'new' | 'same' | True | False | ('ref', sym)
         mem = 'old'     # what *self holds
         bb, steps, verdict = 0, 0, None
+        fetches = []
 
         def val(op):
             if op['k'] == 'const':
@@ -162,6 +163,8 @@ def table_update(R, cfg, b, old_tok, new_tok):
                 return None
             pl = op['place']
             l, pr = pl['l'], pl['p']
+            # ReloadId is a newtype over one usize whose derived order is the order of that field (R0): the field is the id
+            pr = [e for e in pr if not (isinstance(e, dict) and e.get('f') == 0 and e.get('of') == 'entry::ReloadId')]
             if l == 1 and pr == ['deref']:
                 return mem
             if l == 1 and not pr:
@@ -185,7 +188,7 @@ def table_update(R, cfg, b, old_tok, new_tok):
                 if rv['k'] == 'use':
                     v = val(rv['op'])
                 elif rv['k'] == 'ref':
-                    rp = rv['place']
+                    rp = dict(rv['place'], p=[e for e in rv['place']['p'] if not (isinstance(e, dict) and e.get('f') == 0 and e.get('of') == 'entry::ReloadId')])
                     if rp['l'] == 1 and rp['p'] == ['deref']:
                         v = ('ref', 'self')
                     elif rp['l'] == 2 and not rp['p']:
@@ -201,7 +204,15 @@ def table_update(R, cfg, b, old_tok, new_tok):
                 elif rv['k'] == 'unop' and str(rv.get('op', '')).lower().startswith('not'):
                     x = val(rv['a'])
                     v = (not x) if isinstance(x, bool) else None
-                if pl['l'] == 1 and pl['p'] == ['deref']:
+                elif rv['k'] == 'binop' and rv.get('op') in ('Gt', 'Ge', 'Lt', 'Le', 'Eq', 'Ne'):
+                    x, y = val(rv['a']), val(rv['b'])
+                    if x in ('old', 'new', 'same') and y in ('old', 'new', 'same'):
+                        x0, y0 = ('old' if x == 'same' else x), ('old' if y == 'same' else y)
+                        v = sym_cmp(rv['op'].lower(), x0, y0, rel if 'same' not in (x, y) else '=')
+                        cmps_seen.append(rv['op'].lower())
+                plp = [e for e in pl['p'] if not (isinstance(e, dict) and e.get('f') == 0 and e.get('of') == 'entry::ReloadId')]
+                tgt_ref = env.get(pl['l']) if plp == ['deref'] else None
+                if (pl['l'] == 1 and plp == ['deref']) or tgt_ref == ('ref', 'self'):
                     if v not in ('old', 'new', 'same'):
                         verdict = 'a value that is neither the stored nor the offered id is stored'
                         break
@@ -242,7 +253,11 @@ def table_update(R, cfg, b, old_tok, new_tok):
                 a = [x[1] if isinstance(x, tuple) else x for x in a]
                 a = [mem if x == 'self' else x for x in a]
                 r = None
-                if fn.get('def') == 'std::mem::replace' and len(raw_args) == 2 and raw_args[0] == ('ref', 'self') and raw_args[1] in ('old', 'new', 'same'):
+                if atomic and fn.get('def') == 'entry::AtomicReloadId::fetch_max' and raw_args == [('ref', 'self'), 'new']:
+                    # one atomic maximum: the previous id is returned (what is stored is std's business, R3)
+                    r = 'old'
+                    fetches.append(bb)
+                elif fn.get('def') == 'std::mem::replace' and len(raw_args) == 2 and raw_args[0] == ('ref', 'self') and raw_args[1] in ('old', 'new', 'same'):
                     # mem::replace(self, v): the stored id becomes v, the previous one is returned
                     r, mem = mem, raw_args[1]
                 elif tr in ('std::cmp::PartialOrd', 'std::cmp::PartialEq') and name in ('gt', 'ge', 'lt', 'le', 'eq', 'ne') and len(a) == 2 \
@@ -280,6 +295,15 @@ def table_update(R, cfg, b, old_tok, new_tok):
         if rel == '<':
             want_stored = ('old',)
         want_ret = (rel == '>')
+        if atomic:
+            if verdict is None and len(fetches) != 1:
+                verdict = '%d fetch_max on the path (exactly one atomic maximum is needed)' % len(fetches)
+            if verdict is not None and 'not understood' in verdict:
+                R.unrecognised(cfg, b.path, 'abstract execution for new%sprev: %s' % (rel, verdict), b.loc())
+                continue
+            R.check(verdict is None and ret is want_ret, cfg, b.path, 'row new%sprev' % rel,
+                    'for new%sprev: returned %s, want %s%s' % (rel, ret, want_ret, '; ' + verdict if verdict else ''), b.loc(), row={'rel': rel, 'returned': ret})
+            continue
         ok = verdict is None and mem in want_stored and ret is want_ret
         if verdict is not None and 'not understood' in verdict:
             R.unrecognised(cfg, b.path, 'abstract execution for new%sold: %s' % (rel, verdict), b.loc())
@@ -347,14 +371,18 @@ def table_atomic_update(R, cfg, b):
             R.check(ret == (rel == '>'), cfg, b.path, 'row new%sprev' % rel, 'for new%sprev: returned %s, want %s' % (rel, ret, rel == '>'), b.loc(),
                     row={'rel': rel, 'cmp': name, 'swapped': swapped, 'returned': ret})
         return
-    if len(fm) != 1 or len(cmps) != 1 or others:
+    if len(fm) != 1 or not (len(cmps) == 1 or [st for _, _, st in b.assigns() if st['rv']['k'] == 'binop' and st['rv'].get('op') in ('Gt', 'Ge', 'Lt', 'Le')]) or others:
         R.bad(cfg, b.path, 'shape', 'AtomicReloadId::update must be one fetch_max and one comparison; found calls %s'
               % [x.callee.best if x.callee else '?' for x in b.calls()], b.loc())
         return
-    f, c = fm[0], cmps[0]
+    f = fm[0]
     ok = b.access_path(f.args[0]) == ['arg1'] and b.access_path(f.args[1]) == ['arg2']
     R.check(ok, cfg, b.path, 'fetch_max(self,new)', 'fetch_max must be applied to self with the offered id; got %s, %s'
             % (b.access_path(f.args[0]), b.access_path(f.args[1])), f.loc())
+    # the three-row table by abstract execution (the comparison may sit in a helper written in place, its result may pass
+    # through temporaries): `new` against the id fetch_max returned
+    table_update(R, cfg, b, 'prev', 'new', atomic=True)
+    return
     prev = ['call@bb%d' % f.bb, '&']
     a0, a1 = b.access_path(c.args[0]), b.access_path(c.args[1])
     if c.callee.name not in ('gt', 'ge', 'lt', 'le') or c.callee.self_ty != 'entry::ReloadId':
@@ -391,9 +419,12 @@ def prim(R, cfg, F, path, atomic_name, want_args, orderings, wraps=False):
     ordv = enum_variant_of(b, c.args[len(want_args)]) if len(c.args) > len(want_args) else set()
     ok = got == want_args and len(ordv) == 1 and ordv <= orderings
     if wraps:
-        rets = [s for _, _, s in b.assigns() if s['place']['l'] == 0]
-        ok = ok and len(rets) == 1 and rets[0]['rv']['k'] == 'aggregate' and rets[0]['rv'].get('adt') == 'entry::ReloadId' \
-            and b.access_path(rets[0]['rv']['ops'][0]) == ['call@bb%d' % c.bb]
+        # what is returned is ReloadId(result of the atomic operation), built here or by a constructor written in place
+        import common
+        ags = [(bb_, j_, s) for bb_, j_, s in b.assigns() if s['rv']['k'] == 'aggregate' and s['rv'].get('adt') == 'entry::ReloadId' and not b.blocks[bb_]['cleanup']]
+        roots = b.origins(0)
+        ok = ok and len(ags) == 1 and (ags[0][2]['place']['l'] == 0 or ('agg', ags[0][0], ags[0][1]) in roots) \
+            and common.strip_refs(common.deep_path(b, ags[0][2]['rv']['ops'][0], at=ags[0][0])) == ['call@bb%d' % c.bb]
     R.check(ok, cfg, path, '%s(%s;%s)' % (atomic_name, want_args, '/'.join(sorted(orderings))),
             '%s: operands %s ordering %s (want operands %s, ordering in %s%s)' % (path, got, sorted(ordv), want_args, sorted(orderings),
                                                                               ', result wrapped in ReloadId' if wraps else ''),
